@@ -16,6 +16,9 @@
 (* converted it is on the `resolving` stack; meeting it again yields a      *)
 (* member-less stand-in (so that invalid, cyclic schemas terminate).        *)
 (*                                                                          *)
+(* (The model is per schema: since D46 list, memo and tree search all go by  *)
+(* name, namespace and kind, so the schemas of one file do not interfere.)  *)
+(*                                                                          *)
 (* One action per step of the code:                                         *)
 (*   StartDecl    read_xsd takes the next top-level child                   *)
 (*   ByName       Field::try_from_node on ref=: RustDocument::declares      *)
